@@ -375,7 +375,7 @@ pub fn run(shard: &Shard) -> i32 {
         return 0;
     }
     // self test of the reader: it must reject malformed input (otherwise "well-formed" would mean nothing)
-    if shard.idx == 0 {
+    if shard.idx == 0 && shard.only_case.is_none() {
         let bad = ["digraph {\n\t1 [label=\"a\"b\"];\n}\n", "digraph {\n\t1 [label=\"a];\n}\n", "digraph {\n\t1 -> ;\n}\n", "digraph {\n\t1 [label=\"x\"]\n", "graph { }", "digraph { 1 [a=b,a=c]; }"];
         for b in bad { if parse_dot(b).is_ok() { with_acc(|a| a.harness_error(format!("the DOT reader accepts malformed input {b:?}"), J::Null)); } }
         let good = "digraph {\n\tranksep = 3;\n\n\t0 [shape=circle,style=filled,color=\"#99ccff\",peripheries=1,group=\"root\",label=\"K { a: 1 }\\nval: 0\"];\n\t1 [shape=square,style=filled,color=yellow,peripheries=4,group=\"0\",label=\"x\"];\n\t0 -> 1 [penwidth=3,label=\"(x0 = 1)\\ncost = -4\"];\n\tsubgraph cluster_1 {\n\t\tstyle=filled;\n\t\tcolor=purple;\n\t\t1;0\n\t};\n\tterminal [shape=\"circle\", label=\"\", style=\"filled\", color=\"black\", group=\"terminal\"];\n\t1 -> terminal [penwidth=3];\n}\n";
